@@ -83,6 +83,9 @@ type replayFile struct {
 	Extra      map[string]interface{} `json:"extra,omitempty"`
 }
 
+// scenarioRuns: scenario replays executed in the thorough tier (recorded in the evidence)
+var scenarioRuns []map[string]string
+
 func runCheck(repo, verif, prop, tier string, timeout, par int, keep bool) int {
 	start := time.Now()
 	seed := 0
@@ -320,6 +323,35 @@ func runCheck(repo, verif, prop, tier string, timeout, par int, keep bool) int {
 			}
 		}
 	}
+	// thorough tier: every scenario registered for a discharged obligation of this property is replayed on the real
+	// code (regression of repaired defects at run-time level; a bounded, dynamic cross-check of the contracts, not proof)
+	if tier == "thorough" {
+		scn := loadScenarios(verif)
+		ran := map[string]bool{}
+		for _, r := range results {
+			for _, o := range r.Obls {
+				sc, ok := scn[o.Name]
+				if !ok || ran[sc.Test] || o.Verdict != "unsat" || o.ExpectSat {
+					continue
+				}
+				if _, isKnown := knownByObl[o.Name]; isKnown {
+					continue
+				}
+				ran[sc.Test] = true
+				so := w.scenarioReplay(o, scratch)
+				if so == nil {
+					continue
+				}
+				scenarioRuns = append(scenarioRuns, map[string]string{"obligation": o.Name, "scenario": sc.Test, "outcome": so.Detail})
+				fmt.Printf("  scenario %s: %s\n", sc.Test, truncate(so.Detail, 160))
+				if so.Confirmed {
+					rf := &replayFile{Property: prop, Obligation: o.Name + "#scenario", Kind: "scenario", Function: r.Key, Position: o.Pos, Goal: o.GoalSrc,
+						Verdict: "the obligation is discharged but its scenario fails on the real code (the contract or a trusted assumption misrepresents the code)", Replay: so, Confirmed: true}
+					report(rf, "")
+				}
+			}
+		}
+	}
 	for _, m := range missing {
 		report(&replayFile{Property: prop, Obligation: m + "#engine:missing", Kind: "engine", Verdict: "engine-error", Output: "obligation " + m + " is part of the committed baseline of this property but was not generated on this tree (contract removed or function renamed)"}, "no-failing-input-found")
 	}
@@ -472,6 +504,9 @@ func writeEvidence(path, prop, tier string, seed int, results []*FuncResult, byS
 	}
 	if brokenMsg != "" {
 		cov["broken"] = brokenMsg
+	}
+	if len(scenarioRuns) > 0 {
+		cov["scenario_replays"] = scenarioRuns // thorough tier: scenarios of discharged obligations replayed on the real code (dynamic cross-check, not proof)
 	}
 	ev := map[string]interface{}{
 		"property_id": prop,
